@@ -10,6 +10,9 @@ SCR = "/tmp/vconfirm"
 CACHE = "/tmp/vconfirm.cache"
 env = dict(os.environ, GOFLAGS="-mod=mod", GOPROXY="off")
 os.makedirs(CACHE, exist_ok=True)
+def isolated(cmd):
+    """run a test command in its own network namespace: the suites bind fixed local ports"""
+    return "unshare -n sh -c " + json.dumps("ip link set lo up; " + cmd)
 def sh(cmd, cwd=None, timeout=3600):
     try:
         p = subprocess.run(cmd, shell=True, text=True, capture_output=True, cwd=cwd, env=env, timeout=timeout)
@@ -18,7 +21,7 @@ def sh(cmd, cwd=None, timeout=3600):
         return 124, "TIMEOUT"
 def failing_tests(pkg):
     skip = "-skip 'TestEngine_OpenLimitShardError'" if pkg == "./engine" else ""
-    rc, out = sh(f"go test {pkg} -count=1 -timeout 45m {skip} -json 2>&1", cwd=SCR, timeout=3000)
+    rc, out = sh(isolated(f"go test {pkg} -count=1 -timeout 45m {skip} -json 2>&1"), cwd=SCR, timeout=3000)
     fails, passes = set(), 0
     for line in out.splitlines():
         try:
@@ -64,12 +67,12 @@ try:
             shutil.copy(demo_src, demo_dst)
             if "-run" not in run_cmd:
                 print(pid, k, "no demo_run_cmd"); continue
-            rc0, out0 = sh(run_cmd + " 2>&1", cwd=SCR, timeout=2400)
+            rc0, out0 = sh(isolated(run_cmd + " 2>&1"), cwd=SCR, timeout=2400)
             rcA, outA = sh(f"git apply {patch}", cwd=SCR)
             if rcA != 0:
                 print(pid, k, "PATCH DOES NOT APPLY", outA[-300:]); continue
             rcB, outB = sh("go build ./... 2>&1", cwd=SCR, timeout=2400)
-            rc1, out1 = sh(run_cmd + " 2>&1", cwd=SCR, timeout=2400)
+            rc1, out1 = sh(isolated(run_cmd + " 2>&1"), cwd=SCR, timeout=2400)
             files = [l[6:] for l in open(patch).read().splitlines() if l.startswith("+++ b/")]
             pkgs = sorted({"./" + os.path.dirname(f) for f in files if f.endswith(".go") and not f.endswith("_test.go")})
             os.remove(demo_dst)
